@@ -622,6 +622,54 @@ func runC03(c *core.Ctx) {
 			}
 		}
 	}
+	// ---- (iii-f) an input type the application registered a Go struct for (typed slices, pointers, plain kinds): every field
+	// given every value shape, as a literal and as a variable - the reflective copy into the struct must refuse, never panic
+	{
+		sdl := "enum E { A B }\ninput In { l: [Int] n: Int i: Int s: String f: Float b: Boolean e: E sub: In ls: [String] ll: [[Int]] any: [In] }\ntype Query { f(in: In, ins: [In]): String }\n"
+		fields := []string{"l", "n", "i", "s", "f", "b", "e", "sub", "ls", "ll", "any"}
+		values := []string{"null", "1", "-1", "1.5", "\"s\"", "true", "A", "[]", "[1]", "[null]", "[1, null]", "[\"a\", null]", "[[1]]", "[[null], null]", "{}", "{l: [null]}", "[{l: [null]}, null]", "4294967296"}
+		jsonOf := map[string]interface{}{"null": nil, "1": 1.0, "-1": -1.0, "1.5": 1.5, "\"s\"": "s", "true": true, "A": "A", "[]": []interface{}{}, "[1]": []interface{}{1.0}, "[null]": []interface{}{nil},
+			"[1, null]": []interface{}{1.0, nil}, "[\"a\", null]": []interface{}{"a", nil}, "[[1]]": []interface{}{[]interface{}{1.0}}, "[[null], null]": []interface{}{[]interface{}{nil}, nil},
+			"{}": map[string]interface{}{}, "{l: [null]}": map[string]interface{}{"l": []interface{}{nil}}, "[{l: [null]}, null]": []interface{}{map[string]interface{}{"l": []interface{}{nil}}, nil}, "4294967296": 4294967296.0}
+		for _, fld := range fields {
+			for _, val := range values {
+				if !own() {
+					continue
+				}
+				for mode := 0; mode < 3; mode++ {
+					var text string
+					var vars map[string]interface{}
+					switch mode {
+					case 0:
+						text = "{ f(in: {" + fld + ": " + val + "}) }"
+					case 1:
+						text = "{ f(ins: [{" + fld + ": " + val + "}, null, {sub: {" + fld + ": " + val + "}}]) }"
+					case 2:
+						text, vars = "query Q($v: In) { f(in: $v) }", map[string]interface{}{"v": map[string]interface{}{fld: jsonOf[val]}}
+					}
+					if !c.NextCase("registered-input-struct ResolveString: " + text + fmt.Sprintf(" vars=%v", vars)) {
+						continue
+					}
+					c.Eval()
+					c.R.Distinct++
+					c.Nontrivial()
+					if pi := core.Safe(func() {
+						root := ggql.NewRoot(c16Dummy{})
+						if err := root.ParseString(sdl); err != nil {
+							panic(core.EngineError{Msg: "C03 registered-input schema refused: " + err.Error()})
+						}
+						if err := root.RegisterType(&C03In{}, "In"); err != nil {
+							panic(core.EngineError{Msg: "C03 RegisterType refused: " + err.Error()})
+						}
+						res := root.ResolveString(text, "", vars)
+						_ = ggql.WriteJSONValue(io.Discard, res, -1)
+					}); pi != nil {
+						st.panicked("registered-input-struct", "ResolveString", pi, text)
+					}
+				}
+			}
+		}
+	}
 	// ---- (iv) reader faults at every Read call of every corpus document
 	for di, doc := range append(append([]string{}, exeCorpus[:6]...), sdlCorpus[:3]...) {
 		isSDL := di >= 6
@@ -686,4 +734,19 @@ func runC03(c *core.Ctx) {
 	if c.Expired() {
 		c.Cap("deadline reached")
 	}
+}
+
+// C03In is the Go struct an application registers for the input type In (family iii-f).
+type C03In struct {
+	L   []int32
+	N   *int
+	I   int16
+	S   string
+	F   float32
+	B   bool
+	E   string
+	Sub *C03In
+	Ls  []string
+	Ll  [][]int
+	Any []*C03In
 }
